@@ -1,13 +1,36 @@
 // unit `awareness` — the per-client merge step of the awareness protocol (yrs/src/sync/awareness.rs). Serves C18.
-// The bodies of the `Entry::Occupied` / `Entry::Vacant` arms of apply_update_internal, remove_state and
-// set_local_state_raw are lifted mechanically into functions (rule R18); the DashMap entry dispatch, the loop over
-// the update's clients and the observer notifications are NOT part of the verified text (listed in the evidence).
+//
+// VERIFIED (statement level, rule R18 statement regions): the WHOLE `match self.states.entry(client_id) { .. }` statement
+//   -- arm patterns, guards, dispatch and arm bodies -- of
+//     apply_update_internal  (the statement inside `for (client_id, entry) in update.clients`)   label apply_update_match
+//     remove_state           (`let is_removed = match .. ;`)                                     label remove_state_match
+//     set_local_state_raw    (`let prev = match .. ;`)                                           label set_local_state_match
+//   is lifted mechanically into a function over the states MAP (`StatesMap`, view Map<ClientID, ClientState>) and proved
+//   against a contract on that map:  reg(final[client]) == step(reg(old[client]) or None, client == local, clock, new)
+//   for apply (the spec `step` the five lemmas are about), the exact inserted/updated ClientState for remove_state /
+//   set_local_state_raw, "every other client is untouched", and explicitly "the client's clock never goes backwards".
+//   A change of an arm header (e.g. `Entry::Occupied(mut e) if e.get().data.is_some()` + a catch-all arm that re-inserts
+//   a tombstoned client with clock 1) therefore fails a CONTRACT clause instead of losing an anchor.
+//   ClientState::new is verified whole.  The five C18 clauses are lemmas over `step` for every u32 clock.
+// TRUSTED
+//   A2/R17 `StatesMap::vx_entry` = dashmap::DashMap::entry, the ONE external_body: the entry for key k is a mutable optional
+//          slot of the map, Occupied (holding the stored value) iff k is present; what the slot holds when the entry is
+//          dropped is what the map holds for k.  DashMap's sharding / locking is not modelled.  OccupiedEntry::{get, get_mut},
+//          VacantEntry::insert, Entry::insert are VERIFIED against that slot model (stand-in types, documented at the model).
+//   A2     Option::replace (std contract).
+//   R13    Arc<str> payloads are opaque values with equality (`Str`); ClientID is compared for equality only.
+//   SUB    self.states.entry -> states.vx_entry, self.doc.client_id() -> local_id, self.clock.now() -> now (receiver
+//          expressions that became parameters of the lifted statements), Arc<str> -> Str.
+// NOT IN THE VERIFIED TEXT: the loop over update.clients and the 'null' detection before the statement, the value of the
+//   apply match (discarded by the source: `match .. ;`), the summary vectors' contents, observer notifications.
 #![allow(unused_imports, unused_variables, unused_mut, dead_code, unused_parens, unused_braces, unused_assignments)]
 use vstd::prelude::*;
 
 verus! {
 
-/*@rules R10 SUB(from=Arc<str>;;to=Str) SUB(from=self.doc.client_id();;to=local_id) SUB(from=self.clock.now();;to=now) @*/
+/*@rules R10 SUB(from=Arc<str>;;to=Str) SUB(from=self.doc.client_id();;to=local_id) SUB(from=self.clock.now();;to=now)
+   SUB(from=self.states.entry;;to=states.vx_entry)
+@*/
 
 // R13: strings are opaque values with equality only (the merge step never looks inside the JSON payload)
 #[derive(PartialEq, Eq, Structural, Clone, Copy)]
@@ -107,34 +130,6 @@ pub proof fn lemma_commute(r: Reg, c1: u32, n1: Option<Str>, c2: u32, n2: Option
 {
 }
 
-// ---------------------------------------------------------------------------------------------
-// the real arms
-// ---------------------------------------------------------------------------------------------
-/*@extract yrs/src/sync/awareness.rs | impl Awareness | region apply_update_internal | arm=Entry::Occupied(mut e) => | label=apply_occupied
-@header
-    fn aw_apply_occupied(state: &mut ClientState, mut clock: u32, new: Option<Str>, client_id: ClientID, local_id: ClientID,
-        generate_summary: bool, now: Timestamp, removed: &mut Vec<ClientID>, updated: &mut Vec<ClientID>, changed: &mut Vec<ClientID>) -> (r: bool)
-@drop `let state: &mut ClientState = e.get_mut();`
-@sig
-    ensures
-        reg_of(*final(state)) == step(reg_of(*old(state)), client_id == local_id, clock, new),
-        // the entry was touched iff the step changed the register or refreshed it
-        r == (old(state).clock < clock || (old(state).clock == clock && new.is_none() && old(state).data.is_some())),
-        !r ==> *final(state) == *old(state),
-@*/
-
-/// R17/R18 stand-in for `dashmap::VacantEntry`: `insert` makes the value the client's state (trusted map contract)
-pub struct VacantSlot { pub v: Option<ClientState> }
-
-impl VacantSlot {
-    pub fn insert(&mut self, v: ClientState)
-        requires old(self).v.is_none(),
-        ensures final(self).v == Some(v),
-    {
-        self.v = Some(v);
-    }
-}
-
 impl ClientState {
     /*@extract yrs/src/sync/awareness.rs | impl ClientState | fn new
     @ret r
@@ -143,41 +138,187 @@ impl ClientState {
     @*/
 }
 
-/*@extract yrs/src/sync/awareness.rs | impl Awareness | region apply_update_internal | arm=Entry::Vacant(e) => | label=apply_vacant
+// ---------------------------------------------------------------------------------------------
+// dashmap::{DashMap, Entry, OccupiedEntry, VacantEntry}  (A2, R17 stand-in; same model as unit ids_lift uses for std's BTreeMap)
+// Model: `Awareness::states` is a map ClientID -> ClientState, and the entry for key `k` is a mutable optional SLOT of
+// that map.  The ONLY trusted function is `vx_entry` (dashmap: "Advanced entry API that tries to mimic std::collections::
+// HashMap. See the documentation on dashmap::mapref::entry for more details."; std: "Gets the given key's corresponding
+// entry in the map for in-place manipulation.").  Sharding and the shard lock held by the entry are NOT modelled (the
+// entry is used and dropped inside one statement of a `&mut self` method).  The methods are verified against the slot:
+//   OccupiedEntry::get       "Gets a reference to the value in the entry."            (&self -> &V)
+//   OccupiedEntry::get_mut   "Gets a mutable reference to the value in the entry."    (&mut self -> &mut V)
+//   VacantEntry::insert      "Sets the value of the entry with the VacantEntry's key, and returns a mutable reference to it."
+//   Entry::insert            "Sets the value of the entry, and returns a reference to the inserted value."
+// ---------------------------------------------------------------------------------------------
+pub struct OccupiedEntry<'a, V> { pub slot: &'a mut Option<V> }
+
+pub struct VacantEntry<'a, V> { pub slot: &'a mut Option<V> }
+
+pub enum Entry<'a, V> {
+    Occupied(OccupiedEntry<'a, V>),
+    Vacant(VacantEntry<'a, V>),
+}
+
+/// the map after the borrow of key `k`'s slot ends with content `s`
+pub open spec fn slot_map<V>(m: Map<ClientID, V>, k: ClientID, s: Option<V>) -> Map<ClientID, V> {
+    match s {
+        Some(v) => m.insert(k, v),
+        None => if m.contains_key(k) { m.remove(k) } else { m },
+    }
+}
+
+/// the DISPATCH: the entry is Occupied (holding the stored value) iff the key is present
+pub open spec fn entry_of<V>(e: Entry<'_, V>, m: Map<ClientID, V>, k: ClientID) -> bool {
+    if m.contains_key(k) {
+        e is Occupied && *e->Occupied_0.slot == Some(m[k])
+    } else {
+        e is Vacant && *e->Vacant_0.slot == None::<V>
+    }
+}
+
+#[verifier::prophetic]
+pub open spec fn entry_final<V>(e: Entry<'_, V>) -> Option<V> {
+    match e {
+        Entry::Occupied(o) => *final(o.slot),
+        Entry::Vacant(v) => *final(v.slot),
+    }
+}
+
+/// stand-in for `DashMap<ClientID, ClientState>` (field `Awareness::states`)
+pub struct StatesMap { pub m: Ghost<Map<ClientID, ClientState>> }
+
+impl StatesMap {
+    pub open spec fn vx_view(&self) -> Map<ClientID, ClientState> { self.m@ }
+
+    /// A2 (trusted): `dashmap::DashMap::entry`
+    #[verifier::external_body]
+    pub fn vx_entry<'a>(&'a mut self, k: ClientID) -> (r: Entry<'a, ClientState>)
+        ensures
+            entry_of(r, old(self).vx_view(), k),
+            final(self).vx_view() == slot_map(old(self).vx_view(), k, entry_final(r)),
+    {
+        unimplemented!()
+    }
+}
+
+impl<'a, V> OccupiedEntry<'a, V> {
+    pub fn get(&self) -> (r: &V)
+        requires old(self.slot).is_some(),
+        ensures *r == old(self.slot).unwrap(),
+    {
+        self.slot.as_ref().unwrap()
+    }
+
+    pub fn get_mut(&mut self) -> (r: &mut V)
+        requires old(self).slot.is_some(),
+        ensures
+            *r == old(self).slot.unwrap(),
+            *final(self).slot == Some(*final(r)),
+            *final(final(self).slot) == *final(old(self).slot),
+    {
+        self.slot.as_mut().unwrap()
+    }
+}
+
+impl<'a, V> VacantEntry<'a, V> {
+    pub fn insert(self, v: V) -> (r: &'a mut V)
+        ensures
+            *r == v,
+            *final(self.slot) == Some(*final(r)),
+    {
+        *self.slot = Some(v);
+        self.slot.as_mut().unwrap()
+    }
+}
+
+impl<'a, V> Entry<'a, V> {
+    pub fn insert(self, v: V) -> (r: &'a mut V)
+        ensures
+            *r == v,
+            entry_final(self) == Some(*final(r)),
+    {
+        match self {
+            Entry::Occupied(e) => {
+                *e.slot = Some(v);
+                e.slot.as_mut().unwrap()
+            },
+            Entry::Vacant(e) => e.insert(v),
+        }
+    }
+}
+
+/// the register of client `k` in the states map (None = unknown client)
+pub open spec fn reg_at(m: Map<ClientID, ClientState>, k: ClientID) -> Reg {
+    if m.contains_key(k) { reg_of(m[k]) } else { None }
+}
+
+/// every client other than `k` is untouched
+pub open spec fn others_same(m1: Map<ClientID, ClientState>, m0: Map<ClientID, ClientState>, k: ClientID) -> bool {
+    forall|c: ClientID| c != k ==> (#[trigger] m1.contains_key(c) == m0.contains_key(c)) && (m0.contains_key(c) ==> m1[c] == m0[c])
+}
+
+// ---------------------------------------------------------------------------------------------
+// the real `match self.states.entry(client_id) { .. }` statements, dispatch included
+// ---------------------------------------------------------------------------------------------
+
+// apply_update_internal: the whole per-client transition of the loop body equals the spec `step`
+/*@extract yrs/src/sync/awareness.rs | impl Awareness | region apply_update_internal | stmt=stmt:match | stmtnth=1 | label=apply_update_match
 @header
-    fn aw_apply_vacant(e: &mut VacantSlot, mut clock: u32, new: Option<Str>, client_id: ClientID,
-        generate_summary: bool, now: Timestamp, added: &mut Vec<ClientID>) -> (r: bool)
+    fn aw_apply_update_entry(states: &mut StatesMap, client_id: ClientID, mut clock: u32, new: Option<Str>, local_id: ClientID,
+        generate_summary: bool, now: Timestamp, added: &mut Vec<ClientID>, updated: &mut Vec<ClientID>, changed: &mut Vec<ClientID>,
+        removed: &mut Vec<ClientID>)
 @sig
-    requires
-        old(e).v.is_none(),
     ensures
-        final(e).v.is_some(),
-        reg_of(final(e).v.unwrap()) == step(None, false, clock, new),
-        r == new.is_some(),
+        reg_at(final(states).vx_view(), client_id) == step(reg_at(old(states).vx_view(), client_id), client_id == local_id, clock, new),
+        final(states).vx_view().contains_key(client_id),
+        // C18: a client's clock never goes backwards (-1 = unknown client)
+        reg_clock(reg_at(final(states).vx_view(), client_id)) >= reg_clock(reg_at(old(states).vx_view(), client_id)),
+        others_same(final(states).vx_view(), old(states).vx_view(), client_id),
+        // a stale message leaves the stored state (incl. its timestamp) alone
+        old(states).vx_view().contains_key(client_id) && !(old(states).vx_view()[client_id].clock < clock
+            || (old(states).vx_view()[client_id].clock == clock && new.is_none() && old(states).vx_view()[client_id].data.is_some()))
+            ==> final(states).vx_view() == old(states).vx_view(),
 @*/
 
-// remove_state(client): local "mark as disconnected" -- clock strictly increases, payload cleared
-/*@extract yrs/src/sync/awareness.rs | impl Awareness | region remove_state | arm=Entry::Occupied(mut e) => | label=remove_occupied
+// remove_state(client): local "mark as disconnected" -- payload cleared, clock bumped (never backwards)
+/*@extract yrs/src/sync/awareness.rs | impl Awareness | region remove_state | stmt=stmt:let is_removed | tail=is_removed | label=remove_state_match
 @header
-    fn aw_remove_occupied(state: &mut ClientState) -> (r: bool)
-@drop `let state = e.get_mut();`
+    fn aw_remove_state(states: &mut StatesMap, client_id: ClientID, now: Timestamp) -> (is_removed: bool)
 @sig
     ensures
-        final(state).data.is_none(),
-        final(state).clock == bump(old(state).clock),
-        final(state).clock >= old(state).clock,
+        final(states).vx_view().contains_key(client_id),
+        final(states).vx_view()[client_id].data.is_none(),
+        others_same(final(states).vx_view(), old(states).vx_view(), client_id),
+        is_removed == old(states).vx_view().contains_key(client_id),
+        // C18: a client's clock never goes backwards
+        old(states).vx_view().contains_key(client_id) ==> final(states).vx_view()[client_id].clock >= old(states).vx_view()[client_id].clock,
+        old(states).vx_view().contains_key(client_id) ==> final(states).vx_view()[client_id].clock == bump(old(states).vx_view()[client_id].clock),
+        old(states).vx_view().contains_key(client_id) ==> final(states).vx_view()[client_id].last_updated == old(states).vx_view()[client_id].last_updated,
+        // an unknown client is recorded as a tombstone with the first clock
+        !old(states).vx_view().contains_key(client_id) ==> final(states).vx_view()[client_id].clock == 1,
+        !old(states).vx_view().contains_key(client_id) ==> final(states).vx_view()[client_id].last_updated == now,
 @*/
 
-/*@extract yrs/src/sync/awareness.rs | impl Awareness | region set_local_state_raw | arm=Entry::Occupied(mut e) => | label=set_local_occupied
+/// the local client's state after `set_local_state_raw(json)` at time `now`: first clock 1, afterwards one past the stored one
+pub open spec fn set_local_spec(m: Map<ClientID, ClientState>, k: ClientID, now: Timestamp, json: Str) -> ClientState {
+    ClientState { clock: if m.contains_key(k) { bump(m[k].clock) } else { 1u32 }, last_updated: now, data: Some(json) }
+}
+
+// set_local_state_raw(json): the local client's state is replaced, clock bumped (never backwards), previous payload returned
+/*@extract yrs/src/sync/awareness.rs | impl Awareness | region set_local_state_raw | stmt=stmt:let prev | tail=prev | label=set_local_state_match
 @header
-    fn aw_set_local_occupied(state: &mut ClientState, now: Timestamp, json: Str) -> (r: Option<Str>)
-@drop `let state = e.get_mut();`
+    fn aw_set_local_state(states: &mut StatesMap, client_id: ClientID, now: Timestamp, json: Str) -> (prev: Option<Str>)
 @sig
     ensures
-        final(state).data == Some(json),
-        final(state).clock == bump(old(state).clock),
-        final(state).clock >= old(state).clock,
-        r == old(state).data,
+        // C18: a client's clock never goes backwards
+        old(states).vx_view().contains_key(client_id) ==> final(states).vx_view()[client_id].clock >= old(states).vx_view()[client_id].clock,
+        final(states).vx_view() == old(states).vx_view().insert(client_id, set_local_spec(old(states).vx_view(), client_id, now, json)),
+        final(states).vx_view().contains_key(client_id),
+        final(states).vx_view()[client_id].clock == (if old(states).vx_view().contains_key(client_id) { bump(old(states).vx_view()[client_id].clock) } else { 1u32 }),
+        final(states).vx_view()[client_id].last_updated == now,
+        final(states).vx_view()[client_id].data == Some(json),
+        others_same(final(states).vx_view(), old(states).vx_view(), client_id),
+        prev == (if old(states).vx_view().contains_key(client_id) { old(states).vx_view()[client_id].data } else { None }),
 @*/
 
 } // verus!
